@@ -76,7 +76,7 @@ def _work(args):
             res.append({"idx": idx, "harness_error": traceback.format_exc()[-1500:]})
             continue
         rec = {"idx": idx, "sig": out.get("sig"), "nontrivial": bool(out.get("nontrivial")),
-               "ticks": out.get("ticks", 0), "discard": out.get("discard"),
+               "ticks": out.get("ticks", 0), "sim_s": out.get("sim_s", 0), "discard": out.get("discard"),
                "faults": out.get("faults", {}), "probes": out.get("probes", {}),
                "ended_by": out.get("ended_by"), "dt": time.time() - t0}
         v = out.get("violation")
@@ -156,6 +156,7 @@ def run_check(prop, tier):
                 agg["evaluations"] += 1
                 fam["runs"] += 1
                 agg["ticks"] += rec["ticks"]
+                agg["sim_s"] = agg.get("sim_s", 0) + rec.get("sim_s", 0)
                 if rec["discard"]:
                     agg["discarded"] += 1
                     fam["discarded"] += 1
@@ -264,6 +265,7 @@ def run_check(prop, tier):
         "samples": samples[:3] or [{"note": "no sample recorded"}],
         "discarded_in_ambiguity_band": agg["discarded"],
         "simulated_ticks": agg["ticks"],
+        "simulated_seconds": round(agg.get("sim_s", 0), 3),
         "runs_per_hour": int(agg["evaluations"] / wall * 3600) if wall > 0 else 0,
         "fault_kinds_fired": agg["faults"],
         "reach_probes": agg["probes"],
